@@ -27,3 +27,10 @@ check(
     "Trusts the reference conditioning analysis (vf/props/c10._conditioning) and vf/ref/stats.py; alpha and gw are deliberately excluded from the invariance claims (see DESIGN.md C10).",
     "DESIGN.md section 5 C10",
 )
+check(
+    "C03",
+    "Hypothesis-generated spectra / winds / requested counts (drawn relative to the detected number of basins) checked with validity predicates from the statement plus a differential re-assembly of wind sea / swells from the watershed label map",
+    "Thousands (quick) / >100k (thorough) array-level cases over all three methods and accessor-level cases on multi-dimensional datasets with per-position winds and smoothing; every clause (value-or-zero, disjointness, conservation when requested >= detected, count, order with tie groups, dropped-are-smallest) is asserted on each. Exploration.",
+    "Trusts the watershed label map itself (C04 verifies it) and the independent trapezoid Hs used for ordering; wave-age boundary bins within 1e-9 skip only the differential comparison.",
+    "DESIGN.md section 5 C03",
+)
